@@ -103,6 +103,12 @@ def tasks(tier, seed):
                            "name": "payload/silent/%s/%s/j1/%s" % (iv, to, payload[:12].encode("unicode_escape").decode())})
             ts.append({"kind": "responsive", "iv": iv, "to": to, "pat": "0" if to is not None else "none", "payload": payload, "traffic": "chatty", "bound": 2,
                        "name": "payload/responsive/%s/%s/%s" % (iv, to, payload[:12].encode("unicode_escape").decode())})
+    for iv, to in ((2, 1), (3, 1), (2.5, 2)):
+        for pat in ("0", "to"):
+            ts.append({"kind": "responsive", "iv": iv, "to": to, "pat": pat, "payload": "k", "traffic": "none", "bound": 2, "prior": "reconnected", "first_loss": "silent",
+                       "name": "reconnected-after-ping-timeout/responsive/%s/%s/%s" % (iv, to, pat)})
+        ts.append({"kind": "silent", "iv": iv, "to": to, "j": 1, "payload": "k", "traffic": "none", "bound": 2, "prior": "reconnected", "first_loss": "silent",
+                   "name": "reconnected-after-ping-timeout/silent/%s/%s/j1" % (iv, to)})
     # a process-wide default socket timeout (setdefaulttimeout) much larger / smaller than the ping timeout must not change the keepalive
     for iv, to in ((2, 1), (2.5, 2)):
         for dt in (30, 0.5):
@@ -228,7 +234,13 @@ class Harness:
             # ONE run_forever(reconnect=1): the first connection is lost, the measured connection is the one the app re-establishes
             lost_at = iv + 0.5
             # (a third connection, made after a ping timeout on the second, is closed by the server at once so that the run ends)
-            spec["attempts"] = [lambda: tnet.ServerPeer(script=[(lost_at, "eof", b"")], on_ping=("all", 0.0)), mk,
+            if d.get("first_loss") == "silent":
+                # the first connection ends by a ping timeout (its peer never answers): that connection's unanswered ping must not count
+                # against the next connection
+                first_peer = lambda: tnet.ServerPeer(script=[], on_ping=None)
+            else:
+                first_peer = lambda: tnet.ServerPeer(script=[(lost_at, "eof", b"")], on_ping=("all", 0.0))
+            spec["attempts"] = [first_peer, mk,
                                 lambda: tnet.ServerPeer(script=[(0.25, "data", R.encode(R.CLOSE, b"\x03\xe8"))], on_ping=("all", 0.0))]
             run_kwargs["reconnect"] = 1
         run = appsim.AppRun(ch, spec)
@@ -257,6 +269,8 @@ class Harness:
                 raise V("no-reconnect", "the lost connection was not re-established (reconnect=1): %r" % ([e[1] for e in run.trace][:8],))
             trace = [e for e in run.trace[opens[1]:] if not e[1].startswith("--")]
             t0 = run.trace[opens[1]][0]
+            if kind == "responsive" and len(opens) > 2:
+                raise V("false-timeout", "the re-established connection (peer answers every ping) was given up at t=%.2f after its opening and a third connection made" % (run.trace[opens[2]][0] - t0), pat=d.get("pat"), ratio=_ratio(iv, to))
         elif d.get("prior"):
             # only the last run is measured; its clock starts at its on_open
             marks = [i for i, e in enumerate(run.trace) if e[1] == "--second-run--"]
